@@ -787,6 +787,15 @@ MODELS: dict[str, tuple] = {
     'wide-star-cx-u3': (2, lambda: {CNOTGate(), U3Gate()}, 'star', 2),
     'line-cz-rz-sx': (2, lambda: {CZGate(), RZGate(), SqrtXGate()}, 'line', 0),
     'line-cx-u1-rx': (2, lambda: {CNOTGate(), U1Gate(), RXGate()}, 'line', 0),
+    # "mixed" Z-X sets (strengthening round 3): the phase gate and the X gate are chosen by
+    # independent flags in ZXZXZDecomposition; what the leaf EMITS under each pairing is obtained
+    # by running it (emit.sq = a foreign single-qudit gate came out)
+    'line-cx-u1-sx': (2, lambda: {CNOTGate(), U1Gate(), SqrtXGate()}, 'line', 0),
+    'line-cz-rz-rx': (2, lambda: {CZGate(), RZGate(), RXGate()}, 'line', 0),
+    # every Z-X member at once (both flags have a free choice)
+    'line-cx-zx-all': (
+        2, lambda: {CNOTGate(), U1Gate(), RZGate(), RXGate(), SqrtXGate()},
+        'line', 0),
     'a2a-cx-nosq': (2, lambda: {CNOTGate()}, 'a2a', 0),
     'line-cx-nosq': (2, lambda: {CNOTGate()}, 'line', 0),
     'line-cx-h-t': (2, lambda: {CNOTGate(), HGate(), TGate()}, 'line', 0),
